@@ -1,32 +1,45 @@
 package main
 
-// C48 facts: how the server reacts to the verdict of the filter chain at every callback point.
+// C48 facts: how the server reacts to the verdict of the filter chain at every callback point, and the control-flow
+// skeleton those reactions are embedded in.  The extractor is meant to be SEMANTIC: equivalent code must give the
+// identical Generated file.
 //
-// In bfe_server/reverseproxy.go and bfe_server/http_conn.go every callback point has the shape
+// A callback point is any place in package bfe_server (all non-test files) of one of the shapes
 //
-//	hl = <srv>.CallBacks.GetHandlerList(bfe_module.HandleXxx)      (or `hl := ...`)
-//	if hl != nil {
-//	    [retVal[, res] =] hl.FilterYyy(...)
-//	    [basicReq.HttpResponse = res]
-//	    switch retVal { case bfe_module.BfeHandlerV: <stmts> ... }   |   if retVal == bfe_module.BfeHandlerV { <stmts> }   |   nothing
-//	}
+//	X = <..>.CallBacks.GetHandlerList(bfe_module.HandleP)  ;  if X != nil { BODY }        (X any local name, = or :=)
+//	if X := <..>.CallBacks.GetHandlerList(bfe_module.HandleP); X != nil { BODY }
 //
-// For each point the extractor emits: the enclosing function, the Filter method, whether the verdict is
-// looked at at all, and per `case` the verdict names and the statements reduced to tokens:
+// BODY = a call X.FilterYyy(..) whose verdict is (optionally) stored in a local and then dispatched by a `switch` (tag
+// = that local or the call itself, also with an init statement) or an `if` / `else if` chain of `v == V`, `V == v`,
+// `a || b` comparisons with bfe_module.BfeHandlerV constants; `case A, B:` is split into one arm per verdict.
+// The statements of an arm are reduced to tokens
 //
-//	action=closeDirectly | action=closeAfterReply | action=keepAlive | return | goto:<label> | redirect | isRedirect
-//	(assignments to basicReq.BfeStatusCode, basicReq.HttpResponse and request.Trans.Backend are bookkeeping for the
-//	 access log / connection counters and are dropped: tokens `status`, `backendnil` are NOT emitted)
-//	unknown:<text>  for anything else  -> the Lean theorem C48_reactions_understood fails
+//	action=closeDirectly | action=closeAfterReply | action=keepAlive   (assignment of such a constant to a local, or
+//	                      `return [.., ]<const>[, ..]`)
+//	return | goto:<label> | redirect (a call of Redirect) | isRedirect (a local whose name contains "redirect" set to true)
 //
-// plus the iota values of the verdict / callback-point / action constants, the order of the callback points inside
-// ServeHTTP, and whether the five HandlerList.Filter* loops still have the body the model mirrors.
+// calls of same-package helper functions are inlined (depth <= 3, cycle safe; a trailing `return` of the helper is the
+// helper's own); assignments to `.BfeStatusCode`, `.HttpResponse`, `.Trans.Backend` and `log.` calls are bookkeeping and
+// dropped; anything else becomes `unknown:<text>` (the Lean theorem C48_reactions_understood then fails).
+// An arm that falls off its block when nothing but a bare `return` follows in the function gets the token `return`.
+// Output is sorted by (callback point value, verdict value).
+//
+// Skeleton: per function of interest the source-order sequence of callback points, labels and relevant calls, with
+// same-package helpers inlined; and a handful of guards recognised by their STRUCTURE (operands of && / || / == in
+// any order, local names irrelevant).
+//
+// The body of the five HandlerList.FilterXxx loops is NOT fingerprinted any more (every harmless rewrite of a loop
+// changed it): that part of the tie is carried by the `fl` correspondence cases, which run the real loops.
 
 import (
 	"fmt"
 	"go/ast"
+	"go/parser"
 	"go/printer"
 	"go/token"
+	"os"
+	"path/filepath"
+	"sort"
 	"strings"
 )
 
@@ -36,75 +49,219 @@ func c48Str(fset *token.FileSet, n ast.Node) string {
 	return strings.Join(strings.Fields(b.String()), " ")
 }
 
-type c48Point struct {
-	point, fn, method string
-	looked            bool
-	cases             [][2][]string // verdict names, tokens
+type c48Pkg struct {
+	fset   *token.FileSet
+	funcs  map[string]*ast.FuncDecl // by name (methods too; package-level names are unique enough here)
+	qfuncs map[string]*ast.FuncDecl // "Recv.Name" for methods
+	order  []*ast.FuncDecl          // deterministic: file name, then position
+	files  []*ast.File
 }
 
-// iotaConsts returns name -> value for a const block that starts with `X = iota` and contains name first.
-func c48IotaConsts(f *ast.File, first string) map[string]int {
-	for _, d := range f.Decls {
-		gd, ok := d.(*ast.GenDecl)
-		if !ok || gd.Tok != token.CONST {
+func c48LoadPkg(repo, dir string) (*c48Pkg, error) {
+	p := &c48Pkg{fset: token.NewFileSet(), funcs: map[string]*ast.FuncDecl{}, qfuncs: map[string]*ast.FuncDecl{}}
+	ents, err := os.ReadDir(filepath.Join(repo, dir))
+	if err != nil {
+		return nil, err
+	}
+	var names []string
+	for _, e := range ents {
+		n := e.Name()
+		if e.IsDir() || !strings.HasSuffix(n, ".go") || strings.HasSuffix(n, "_test.go") || strings.HasPrefix(n, "zz_verif") {
 			continue
 		}
-		out := map[string]int{}
-		okBlock := false
-		for i, s := range gd.Specs {
-			vs := s.(*ast.ValueSpec)
-			if len(vs.Names) != 1 {
-				okBlock = false
-				break
-			}
-			if i == 0 {
-				if vs.Names[0].Name != first || len(vs.Values) != 1 {
-					break
-				}
-				if id, ok := vs.Values[0].(*ast.Ident); !ok || id.Name != "iota" {
-					break
-				}
-				okBlock = true
-			} else if len(vs.Values) != 0 {
-				okBlock = false
-				break
-			}
-			out[vs.Names[0].Name] = i
+		names = append(names, n)
+	}
+	sort.Strings(names)
+	for _, n := range names {
+		f, err := parser.ParseFile(p.fset, filepath.Join(repo, dir, n), nil, 0)
+		if err != nil {
+			return nil, err
 		}
-		if okBlock {
-			return out
+		p.files = append(p.files, f)
+		for _, d := range f.Decls {
+			if fd, ok := d.(*ast.FuncDecl); ok && fd.Body != nil {
+				p.order = append(p.order, fd)
+				if fd.Recv != nil && len(fd.Recv.List) == 1 {
+					t := fd.Recv.List[0].Type
+					if st, ok := t.(*ast.StarExpr); ok {
+						t = st.X
+					}
+					if id, ok := t.(*ast.Ident); ok {
+						p.qfuncs[id.Name+"."+fd.Name.Name] = fd
+					}
+				}
+				if _, dup := p.funcs[fd.Name.Name]; !dup {
+					p.funcs[fd.Name.Name] = fd
+				}
+			}
+		}
+	}
+	return p, nil
+}
+
+func c48CallName(c *ast.CallExpr) string {
+	switch f := c.Fun.(type) {
+	case *ast.SelectorExpr:
+		return f.Sel.Name
+	case *ast.Ident:
+		return f.Name
+	}
+	return ""
+}
+
+// callee returns the same-package function a call refers to (plain identifier, or method call on a local value).
+func (p *c48Pkg) callee(c *ast.CallExpr) *ast.FuncDecl {
+	switch f := c.Fun.(type) {
+	case *ast.Ident:
+		return p.funcs[f.Name]
+	case *ast.SelectorExpr:
+		if x, ok := f.X.(*ast.Ident); ok && x.Obj != nil { // a local variable / receiver, not a package name
+			if fd := p.funcs[f.Sel.Name]; fd != nil && fd.Recv != nil {
+				return fd
+			}
 		}
 	}
 	return nil
 }
 
-func c48Tokens(fset *token.FileSet, stmts []ast.Stmt) []string {
+// c48IotaConsts returns name -> value for the const block `first = iota; ...`.
+func c48IotaConsts(files []*ast.File, first string) map[string]int {
+	for _, f := range files {
+		for _, d := range f.Decls {
+			gd, ok := d.(*ast.GenDecl)
+			if !ok || gd.Tok != token.CONST {
+				continue
+			}
+			out := map[string]int{}
+			okBlock := false
+			for i, s := range gd.Specs {
+				vs := s.(*ast.ValueSpec)
+				if len(vs.Names) != 1 {
+					okBlock = false
+					break
+				}
+				if i == 0 {
+					if vs.Names[0].Name != first || len(vs.Values) != 1 {
+						break
+					}
+					if id, ok := vs.Values[0].(*ast.Ident); !ok || id.Name != "iota" {
+						break
+					}
+					okBlock = true
+				} else if len(vs.Values) != 0 {
+					okBlock = false
+					break
+				}
+				out[vs.Names[0].Name] = i
+			}
+			if okBlock {
+				return out
+			}
+		}
+	}
+	return nil
+}
+
+var c48Actions = map[string]bool{"keepAlive": true, "closeAfterReply": true, "closeDirectly": true}
+
+func c48SelPath(e ast.Expr) string {
+	switch v := e.(type) {
+	case *ast.Ident:
+		return v.Name
+	case *ast.SelectorExpr:
+		return c48SelPath(v.X) + "." + v.Sel.Name
+	}
+	return "?"
+}
+
+func (p *c48Pkg) tokens(stmts []ast.Stmt, depth int, seen map[string]bool) []string {
 	var toks []string
 	for _, st := range stmts {
-		s := c48Str(fset, st)
-		switch {
-		case s == "return":
+		switch s := st.(type) {
+		case *ast.EmptyStmt:
+		case *ast.ReturnStmt:
+			for _, r := range s.Results {
+				if id, ok := r.(*ast.Ident); ok && c48Actions[id.Name] {
+					toks = append(toks, "action="+id.Name)
+				}
+			}
 			toks = append(toks, "return")
-		case strings.HasPrefix(s, "goto "):
-			toks = append(toks, "goto:"+strings.TrimPrefix(s, "goto "))
-		case s == "action = closeDirectly" || s == "action = closeAfterReply" || s == "action = keepAlive":
-			toks = append(toks, "action="+strings.TrimPrefix(s, "action = "))
-		case s == "isRedirect = true":
-			toks = append(toks, "isRedirect")
-		case s == "Redirect(rw, req, basicReq.Redirect.Url, basicReq.Redirect.Code, basicReq.Redirect.Header)":
-			toks = append(toks, "redirect")
-		case s == "basicReq.BfeStatusCode = bfe_http.StatusInternalServerError" ||
-			s == "basicReq.BfeStatusCode = basicReq.Redirect.Code" ||
-			s == "request.Trans.Backend = nil":
-			// bookkeeping only (access log status / backend connection counter, see C07)
+		case *ast.BranchStmt:
+			if s.Tok == token.GOTO && s.Label != nil {
+				toks = append(toks, "goto:"+s.Label.Name)
+			} else {
+				toks = append(toks, "unknown:"+c48Str(p.fset, s))
+			}
+		case *ast.AssignStmt:
+			if len(s.Lhs) == 1 && len(s.Rhs) == 1 {
+				path := c48SelPath(s.Lhs[0])
+				if id, ok := s.Rhs[0].(*ast.Ident); ok {
+					if _, isLocal := s.Lhs[0].(*ast.Ident); isLocal && c48Actions[id.Name] {
+						toks = append(toks, "action="+id.Name)
+						continue
+					}
+					if _, isLocal := s.Lhs[0].(*ast.Ident); isLocal && id.Name == "true" && strings.Contains(strings.ToLower(path), "redirect") {
+						toks = append(toks, "isRedirect")
+						continue
+					}
+				}
+				if strings.HasSuffix(path, ".BfeStatusCode") || strings.HasSuffix(path, ".HttpResponse") || strings.HasSuffix(path, ".Trans.Backend") {
+					continue // bookkeeping: access-log status, response pointer for later hooks, backend connection counter (C07)
+				}
+			}
+			toks = append(toks, "unknown:"+c48Str(p.fset, s))
+		case *ast.ExprStmt:
+			call, ok := s.X.(*ast.CallExpr)
+			if !ok {
+				toks = append(toks, "unknown:"+c48Str(p.fset, s))
+				continue
+			}
+			name := c48CallName(call)
+			if strings.HasPrefix(c48SelPath(call.Fun), "log.") {
+				continue
+			}
+			if name == "Redirect" {
+				toks = append(toks, "redirect")
+				continue
+			}
+			if fd := p.callee(call); fd != nil && depth < 3 && !seen[fd.Name.Name] {
+				seen[fd.Name.Name] = true
+				in := p.tokens(fd.Body.List, depth+1, seen)
+				delete(seen, fd.Name.Name)
+				if n := len(in); n > 0 && in[n-1] == "return" {
+					in = in[:n-1]
+				}
+				for _, t := range in {
+					if t == "return" || strings.HasPrefix(t, "goto:") {
+						t = "unknown:control flow inside helper " + fd.Name.Name
+					}
+					toks = append(toks, t)
+				}
+				continue
+			}
+			toks = append(toks, "unknown:"+c48Str(p.fset, s))
 		default:
-			toks = append(toks, "unknown:"+s)
+			toks = append(toks, "unknown:"+c48Str(p.fset, st))
 		}
 	}
 	return toks
 }
 
+type c48Arm struct {
+	verdict string
+	toks    []string
+}
+
+type c48Point struct {
+	point, method string
+	looked        bool
+	arms          []c48Arm
+}
+
 func c48VerdictName(e ast.Expr) (string, bool) {
+	if pe, ok := e.(*ast.ParenExpr); ok {
+		return c48VerdictName(pe.X)
+	}
 	if se, ok := e.(*ast.SelectorExpr); ok {
 		if x, ok := se.X.(*ast.Ident); ok && x.Name == "bfe_module" && strings.HasPrefix(se.Sel.Name, "BfeHandler") {
 			return se.Sel.Name, true
@@ -113,21 +270,325 @@ func c48VerdictName(e ast.Expr) (string, bool) {
 	return "", false
 }
 
-// c48Scan walks one statement list.
-func c48Scan(fset *token.FileSet, fn string, list []ast.Stmt, out *[]c48Point) error {
+func c48IsNil(e ast.Expr) bool { id, ok := e.(*ast.Ident); return ok && id.Name == "nil" }
+
+// c48NotNil: e is `name != nil` or `nil != name`.
+func c48NotNil(e ast.Expr, name string) bool {
+	be, ok := e.(*ast.BinaryExpr)
+	if !ok || be.Op != token.NEQ {
+		return false
+	}
+	isName := func(x ast.Expr) bool { id, ok := x.(*ast.Ident); return ok && id.Name == name }
+	return (isName(be.X) && c48IsNil(be.Y)) || (isName(be.Y) && c48IsNil(be.X))
+}
+
+// handlerListAssign: `X = <..>.GetHandlerList(bfe_module.HandleP)`.
+func c48HandlerListAssign(st ast.Stmt) (name, point string, ok bool) {
+	as, isAs := st.(*ast.AssignStmt)
+	if !isAs || len(as.Lhs) != 1 || len(as.Rhs) != 1 {
+		return
+	}
+	id, isID := as.Lhs[0].(*ast.Ident)
+	call, isCall := as.Rhs[0].(*ast.CallExpr)
+	if !isID || !isCall || c48CallName(call) != "GetHandlerList" || len(call.Args) != 1 {
+		return
+	}
+	arg := c48SelPath(call.Args[0])
+	if !strings.HasPrefix(arg, "bfe_module.Handle") {
+		return
+	}
+	return id.Name, strings.TrimPrefix(arg, "bfe_module.Handle"), true
+}
+
+// filterCall finds `hl.FilterXxx(...)` directly in e (not inside nested function literals).
+func c48FilterCall(e ast.Node, hl string) *ast.CallExpr {
+	var found *ast.CallExpr
+	if e == nil {
+		return nil
+	}
+	ast.Inspect(e, func(n ast.Node) bool {
+		if found != nil {
+			return false
+		}
+		if _, ok := n.(*ast.FuncLit); ok {
+			return false
+		}
+		if c, ok := n.(*ast.CallExpr); ok {
+			if se, ok := c.Fun.(*ast.SelectorExpr); ok && strings.HasPrefix(se.Sel.Name, "Filter") {
+				if x, ok := se.X.(*ast.Ident); ok && x.Name == hl {
+					found = c
+					return false
+				}
+			}
+		}
+		return true
+	})
+	return found
+}
+
+// c48Cond: the verdicts an `if` condition selects; isV recognises the verdict expression.
+func c48Cond(e ast.Expr, isV func(ast.Expr) bool) ([]string, bool) {
+	switch v := e.(type) {
+	case *ast.ParenExpr:
+		return c48Cond(v.X, isV)
+	case *ast.BinaryExpr:
+		switch v.Op {
+		case token.LOR:
+			a, ok1 := c48Cond(v.X, isV)
+			b, ok2 := c48Cond(v.Y, isV)
+			return append(a, b...), ok1 && ok2
+		case token.EQL:
+			if n, ok := c48VerdictName(v.Y); ok && isV(v.X) {
+				return []string{n}, true
+			}
+			if n, ok := c48VerdictName(v.X); ok && isV(v.Y) {
+				return []string{n}, true
+			}
+		}
+	}
+	return nil, false
+}
+
+func (p *c48Pkg) dispatch(st ast.Stmt, isV func(ast.Expr) bool, where string) ([]c48Arm, error) {
+	var arms []c48Arm
+	switch s := st.(type) {
+	case *ast.SwitchStmt:
+		if s.Tag == nil || !isV(s.Tag) {
+			return nil, fmt.Errorf("%s: switch tag is not the verdict", where)
+		}
+		for _, c := range s.Body.List {
+			cc := c.(*ast.CaseClause)
+			if cc.List == nil {
+				if len(cc.Body) != 0 {
+					return nil, fmt.Errorf("%s: non-empty `default:` in the verdict switch (not modelled)", where)
+				}
+				continue
+			}
+			toks := p.tokens(cc.Body, 0, map[string]bool{})
+			for _, e := range cc.List {
+				n, ok := c48VerdictName(e)
+				if !ok {
+					return nil, fmt.Errorf("%s: case %s is not a bfe_module.BfeHandlerXxx", where, c48Str(p.fset, e))
+				}
+				arms = append(arms, c48Arm{n, toks})
+			}
+		}
+	case *ast.IfStmt:
+		names, ok := c48Cond(s.Cond, isV)
+		if !ok {
+			return nil, fmt.Errorf("%s: `if %s` is not a comparison of the verdict with verdict constants", where, c48Str(p.fset, s.Cond))
+		}
+		toks := p.tokens(s.Body.List, 0, map[string]bool{})
+		for _, n := range names {
+			arms = append(arms, c48Arm{n, toks})
+		}
+		switch e := s.Else.(type) {
+		case nil:
+		case *ast.IfStmt:
+			if e.Init != nil {
+				return nil, fmt.Errorf("%s: else-if with init statement", where)
+			}
+			more, err := p.dispatch(e, isV, where)
+			if err != nil {
+				return nil, err
+			}
+			arms = append(arms, more...)
+		case *ast.BlockStmt:
+			if len(e.List) != 0 {
+				return nil, fmt.Errorf("%s: non-empty final else in the verdict dispatch (not modelled)", where)
+			}
+		}
+	default:
+		return nil, fmt.Errorf("%s: verdict dispatch is neither switch nor if: %s", where, c48Str(p.fset, st))
+	}
+	return arms, nil
+}
+
+// pointBody analyses the body of `if hl != nil { ... }`.
+func (p *c48Pkg) pointBody(hl, point, fn string, body []ast.Stmt) (c48Point, error) {
+	pt := c48Point{point: point}
+	where := fn + "/" + point
+	if len(body) == 0 {
+		return pt, fmt.Errorf("%s: empty callback block", where)
+	}
+	verdictVar := ""
+	isV := func(e ast.Expr) bool {
+		if pe, ok := e.(*ast.ParenExpr); ok {
+			e = pe.X
+		}
+		if id, ok := e.(*ast.Ident); ok {
+			return verdictVar != "" && id.Name == verdictVar
+		}
+		if c, ok := e.(*ast.CallExpr); ok {
+			return c48FilterCall(c, hl) == c
+		}
+		return false
+	}
+	noteCall := func(c *ast.CallExpr) { pt.method = c.Fun.(*ast.SelectorExpr).Sel.Name }
+	takeAssign := func(st ast.Stmt) bool {
+		switch s := st.(type) {
+		case *ast.AssignStmt:
+			if len(s.Rhs) == 1 {
+				if c, ok := s.Rhs[0].(*ast.CallExpr); ok && c48FilterCall(c, hl) == c {
+					if id, ok := s.Lhs[0].(*ast.Ident); ok {
+						verdictVar = id.Name
+					}
+					noteCall(c)
+					return true
+				}
+			}
+		case *ast.ExprStmt:
+			if c, ok := s.X.(*ast.CallExpr); ok && c48FilterCall(c, hl) == c {
+				noteCall(c)
+				return true
+			}
+		}
+		return false
+	}
+	rest := body
+	if takeAssign(rest[0]) {
+		rest = rest[1:]
+	}
+	// bookkeeping between the call and the dispatch
+	for len(rest) > 0 {
+		if as, ok := rest[0].(*ast.AssignStmt); ok && len(as.Lhs) == 1 && strings.HasSuffix(c48SelPath(as.Lhs[0]), ".HttpResponse") {
+			rest = rest[1:]
+			continue
+		}
+		break
+	}
+	if len(rest) == 0 {
+		if pt.method == "" {
+			return pt, fmt.Errorf("%s: no Filter call in the callback block", where)
+		}
+		pt.looked = verdictVar != ""
+		return pt, nil
+	}
+	if len(rest) != 1 {
+		return pt, fmt.Errorf("%s: more than one statement after the Filter call", where)
+	}
+	// init statements / call inside the dispatch statement itself
+	switch s := rest[0].(type) {
+	case *ast.SwitchStmt:
+		if s.Init != nil && !takeAssign(s.Init) {
+			return pt, fmt.Errorf("%s: unexpected switch init", where)
+		}
+		if pt.method == "" {
+			if c := c48FilterCall(s.Tag, hl); c != nil {
+				noteCall(c)
+			}
+		}
+	case *ast.IfStmt:
+		if s.Init != nil && !takeAssign(s.Init) {
+			return pt, fmt.Errorf("%s: unexpected if init", where)
+		}
+		if pt.method == "" {
+			if c := c48FilterCall(s.Cond, hl); c != nil {
+				noteCall(c)
+			}
+		}
+	}
+	if pt.method == "" {
+		return pt, fmt.Errorf("%s: no Filter call in the callback block", where)
+	}
+	arms, err := p.dispatch(rest[0], isV, where)
+	if err != nil {
+		return pt, err
+	}
+	// the effects of an arm (everything before its terminator) are independent of each other: canonical order
+	rank := func(t string) int {
+		switch {
+		case strings.HasPrefix(t, "action="):
+			return 0
+		case t == "redirect":
+			return 1
+		case t == "isRedirect":
+			return 2
+		}
+		return 3
+	}
+	for k := range arms {
+		t := append([]string{}, arms[k].toks...)
+		n := len(t)
+		for i, x := range t {
+			if x == "return" || strings.HasPrefix(x, "goto:") {
+				n = i
+				break
+			}
+		}
+		sort.SliceStable(t[:n], func(i, j int) bool { return rank(t[i]) < rank(t[j]) })
+		arms[k].toks = t
+	}
+	pt.looked = true
+	pt.arms = arms
+	return pt, nil
+}
+
+func c48OnlyBareReturn(stmts []ast.Stmt) bool {
+	if len(stmts) == 0 {
+		return true
+	}
+	if len(stmts) == 1 {
+		if r, ok := stmts[0].(*ast.ReturnStmt); ok && len(r.Results) == 0 {
+			return true
+		}
+	}
+	return false
+}
+
+// scan walks a statement list; tail = what follows this list in the enclosing function (nil if unknown / more code).
+func (p *c48Pkg) scan(fn string, list []ast.Stmt, top bool, out *[]c48Point) error {
 	for i, st := range list {
-		// recurse into nested blocks first
+		var hl, point string
+		var body []ast.Stmt
+		var after []ast.Stmt
+		found := false
+		if n, pt, ok := c48HandlerListAssign(st); ok && i+1 < len(list) {
+			if ifs, ok := list[i+1].(*ast.IfStmt); ok && ifs.Init == nil && ifs.Else == nil && c48NotNil(ifs.Cond, n) {
+				hl, point, body, after, found = n, pt, ifs.Body.List, list[i+2:], true
+			} else {
+				return fmt.Errorf("%s: `if %s != nil {` does not follow GetHandlerList(Handle%s)", fn, n, pt)
+			}
+		} else if ifs, ok := st.(*ast.IfStmt); ok && ifs.Init != nil {
+			if n, pt, ok := c48HandlerListAssign(ifs.Init); ok {
+				if ifs.Else != nil || !c48NotNil(ifs.Cond, n) {
+					return fmt.Errorf("%s: unexpected guard around GetHandlerList(Handle%s)", fn, pt)
+				}
+				hl, point, body, after, found = n, pt, ifs.Body.List, list[i+1:], true
+			}
+		}
+		if found {
+			pt, err := p.pointBody(hl, point, fn, body)
+			if err != nil {
+				return err
+			}
+			// an arm that falls off the block when only a bare `return` follows in the function returns
+			if top && c48OnlyBareReturn(after) {
+				for k := range pt.arms {
+					t := pt.arms[k].toks
+					if n := len(t); n == 0 || !(t[n-1] == "return" || strings.HasPrefix(t[n-1], "goto:")) {
+						pt.arms[k].toks = append(append([]string{}, t...), "return")
+					}
+				}
+			}
+			*out = append(*out, pt)
+			continue
+		}
+		// nested blocks (loops, if bodies, case clauses, function literals)
 		var err error
 		ast.Inspect(st, func(n ast.Node) bool {
 			if err != nil {
 				return false
 			}
-			if b, ok := n.(*ast.BlockStmt); ok && n != st {
-				err = c48Scan(fset, fn, b.List, out)
+			switch b := n.(type) {
+			case *ast.BlockStmt:
+				err = p.scan(fn, b.List, false, out)
 				return false
-			}
-			if cc, ok := n.(*ast.CaseClause); ok {
-				err = c48Scan(fset, fn, cc.Body, out)
+			case *ast.CaseClause:
+				err = p.scan(fn, b.Body, false, out)
+				return false
+			case *ast.CommClause:
+				err = p.scan(fn, b.Body, false, out)
 				return false
 			}
 			return true
@@ -135,112 +596,6 @@ func c48Scan(fset *token.FileSet, fn string, list []ast.Stmt, out *[]c48Point) e
 		if err != nil {
 			return err
 		}
-		as, ok := st.(*ast.AssignStmt)
-		if !ok || len(as.Lhs) != 1 || len(as.Rhs) != 1 {
-			continue
-		}
-		if id, ok := as.Lhs[0].(*ast.Ident); !ok || id.Name != "hl" {
-			continue
-		}
-		call, ok := as.Rhs[0].(*ast.CallExpr)
-		if !ok || len(call.Args) != 1 || !strings.HasSuffix(c48Str(fset, call.Fun), "CallBacks.GetHandlerList") {
-			continue
-		}
-		arg := c48Str(fset, call.Args[0])
-		if !strings.HasPrefix(arg, "bfe_module.Handle") {
-			return fmt.Errorf("%s: GetHandlerList argument %q is not a bfe_module.HandleXxx constant", fn, arg)
-		}
-		p := c48Point{point: strings.TrimPrefix(arg, "bfe_module.Handle"), fn: fn}
-		if i+1 >= len(list) {
-			return fmt.Errorf("%s: nothing follows GetHandlerList(%s)", fn, arg)
-		}
-		ifs, ok := list[i+1].(*ast.IfStmt)
-		if !ok || c48Str(fset, ifs.Cond) != "hl != nil" || ifs.Else != nil || ifs.Init != nil {
-			return fmt.Errorf("%s: `if hl != nil {` does not follow GetHandlerList(%s)", fn, arg)
-		}
-		body := ifs.Body.List
-		if len(body) == 0 {
-			return fmt.Errorf("%s: empty `if hl != nil` after %s", fn, arg)
-		}
-		// first statement: the Filter call
-		var fcall *ast.CallExpr
-		var lhs string
-		switch s := body[0].(type) {
-		case *ast.AssignStmt:
-			if len(s.Rhs) == 1 {
-				fcall, _ = s.Rhs[0].(*ast.CallExpr)
-			}
-			var l []string
-			for _, e := range s.Lhs {
-				l = append(l, c48Str(fset, e))
-			}
-			lhs = strings.Join(l, ",")
-		case *ast.ExprStmt:
-			fcall, _ = s.X.(*ast.CallExpr)
-		}
-		if fcall == nil {
-			return fmt.Errorf("%s: first statement after %s is not a Filter call", fn, arg)
-		}
-		m := c48Str(fset, fcall.Fun)
-		if !strings.HasPrefix(m, "hl.Filter") {
-			return fmt.Errorf("%s: %s is not hl.FilterXxx", fn, m)
-		}
-		p.method = strings.TrimPrefix(m, "hl.")
-		if lhs != "" && lhs != "retVal" && lhs != "retVal,res" {
-			return fmt.Errorf("%s: unexpected left-hand side %q of %s", fn, lhs, m)
-		}
-		rest := body[1:]
-		if len(rest) > 0 && c48Str(fset, rest[0]) == "basicReq.HttpResponse = res" {
-			rest = rest[1:]
-		}
-		switch {
-		case len(rest) == 0:
-			p.looked = false
-			if lhs != "" {
-				p.looked = true // assigned but never inspected here
-			}
-		case len(rest) == 1:
-			p.looked = true
-			if lhs == "" {
-				return fmt.Errorf("%s: verdict of %s inspected but never assigned", fn, m)
-			}
-			switch s := rest[0].(type) {
-			case *ast.SwitchStmt:
-				if s.Init != nil || c48Str(fset, s.Tag) != "retVal" {
-					return fmt.Errorf("%s: switch after %s is not `switch retVal`", fn, m)
-				}
-				for _, c := range s.Body.List {
-					cc := c.(*ast.CaseClause)
-					if cc.List == nil {
-						return fmt.Errorf("%s: `default:` in the verdict switch of %s (not modelled)", fn, arg)
-					}
-					var names []string
-					for _, e := range cc.List {
-						n, ok := c48VerdictName(e)
-						if !ok {
-							return fmt.Errorf("%s: case %s is not a bfe_module.BfeHandlerXxx", fn, c48Str(fset, e))
-						}
-						names = append(names, n)
-					}
-					p.cases = append(p.cases, [2][]string{names, c48Tokens(fset, cc.Body)})
-				}
-			case *ast.IfStmt:
-				be, ok := s.Cond.(*ast.BinaryExpr)
-				if !ok || be.Op != token.EQL || c48Str(fset, be.X) != "retVal" || s.Else != nil || s.Init != nil {
-					return fmt.Errorf("%s: `if` after %s is not `if retVal == V`", fn, m)
-				}
-				n, ok := c48VerdictName(be.Y)
-				if !ok {
-					return fmt.Errorf("%s: `if retVal == %s` does not compare with a verdict constant", fn, c48Str(fset, be.Y))
-				}
-				p.cases = append(p.cases, [2][]string{{n}, c48Tokens(fset, s.Body.List)})
-			default:
-				return fmt.Errorf("%s: statement after %s is neither switch nor if: %s", fn, m, c48Str(fset, rest[0]))
-			}
-		default:
-			return fmt.Errorf("%s: more than one statement follows %s inside `if hl != nil`", fn, m)
-		}
-		*out = append(*out, p)
 	}
 	return nil
 }
@@ -253,29 +608,36 @@ func c48List(xs []string) string {
 	return "[" + strings.Join(q, ", ") + "]"
 }
 
-// the body every HandlerList.FilterXxx loop is expected to have (I = interface type, CALL = the call)
-const c48LoopTemplate = `for e := hl.handlers.Front(); e != nil; e = e.Next() { switch filter := e.Value.(type) { case IFACE: ASSIGN = CALL if retVal != BfeHandlerGoOn { break LOOP } default: log.Logger.Error("%v (%T) is not a IFACE\n", e.Value, e.Value) break LOOP } }`
-
-// c48Events lists, in source order, the callback points (GetHandlerList), labels and calls to the named functions
-// that occur in fn's body (function literals such as deferred closures included).
-func c48Events(fset *token.FileSet, fn *ast.FuncDecl, calls map[string]bool) []string {
+// events lists, in source order, the callback points, labels and calls of interest in fn, with same-package helpers
+// (and function literals, e.g. deferred closures) inlined.
+func (p *c48Pkg) events(fn *ast.FuncDecl, calls map[string]bool, depth int, seen map[string]bool) []string {
 	var out []string
 	ast.Inspect(fn.Body, func(n ast.Node) bool {
 		switch v := n.(type) {
 		case *ast.LabeledStmt:
-			out = append(out, "label:"+v.Label.Name)
-		case *ast.CallExpr:
-			name := ""
-			switch f := v.Fun.(type) {
-			case *ast.SelectorExpr:
-				name = f.Sel.Name
-			case *ast.Ident:
-				name = f.Name
+			if depth == 0 {
+				out = append(out, "label:"+v.Label.Name)
 			}
+		case *ast.CallExpr:
+			name := c48CallName(v)
 			if name == "GetHandlerList" && len(v.Args) == 1 {
-				out = append(out, "point:"+strings.TrimPrefix(c48Str(fset, v.Args[0]), "bfe_module.Handle"))
+				out = append(out, "point:"+strings.TrimPrefix(c48SelPath(v.Args[0]), "bfe_module.Handle"))
 			} else if calls[name] {
 				out = append(out, "call:"+name)
+			} else if fd := p.callee(v); fd != nil && depth < 3 && !seen[fd.Name.Name] && fd != fn {
+				// arguments first (source order), then the callee's body
+				for _, a := range v.Args {
+					ast.Inspect(a, func(m ast.Node) bool {
+						if c, ok := m.(*ast.CallExpr); ok && calls[c48CallName(c)] {
+							out = append(out, "call:"+c48CallName(c))
+						}
+						return true
+					})
+				}
+				seen[fd.Name.Name] = true
+				out = append(out, p.events(fd, calls, depth+1, seen)...)
+				delete(seen, fd.Name.Name)
+				return false
 			}
 		}
 		return true
@@ -283,177 +645,166 @@ func c48Events(fset *token.FileSet, fn *ast.FuncDecl, calls map[string]bool) []s
 	return out
 }
 
-// c48IfWith reports whether fn contains an `if <cond>` (exact text) whose body (or else branch, when inElse) contains all
-// the given call names / statement texts.
-func c48IfWith(fset *token.FileSet, fn *ast.FuncDecl, cond string, inElse bool, needles ...string) bool {
+// ---- structural guards
+
+func c48Operands(e ast.Expr, op token.Token) []ast.Expr {
+	if pe, ok := e.(*ast.ParenExpr); ok {
+		return c48Operands(pe.X, op)
+	}
+	if be, ok := e.(*ast.BinaryExpr); ok && be.Op == op {
+		return append(c48Operands(be.X, op), c48Operands(be.Y, op)...)
+	}
+	return []ast.Expr{e}
+}
+
+func c48Unparen(e ast.Expr) ast.Expr {
+	for {
+		pe, ok := e.(*ast.ParenExpr)
+		if !ok {
+			return e
+		}
+		e = pe.X
+	}
+}
+
+// atom kinds: "not" (!x), "nil==" , "nil!=", "==C" (compare with named constant C), "sel:.f" (selector ending .f), "other"
+func c48Atom(e ast.Expr) string {
+	e = c48Unparen(e)
+	switch v := e.(type) {
+	case *ast.UnaryExpr:
+		if v.Op == token.NOT {
+			return "not"
+		}
+	case *ast.BinaryExpr:
+		if v.Op == token.EQL || v.Op == token.NEQ {
+			op := "=="
+			if v.Op == token.NEQ {
+				op = "!="
+			}
+			if c48IsNil(v.X) || c48IsNil(v.Y) {
+				return "nil" + op
+			}
+			for _, s := range []ast.Expr{v.X, v.Y} {
+				if id, ok := c48Unparen(s).(*ast.Ident); ok && c48Actions[id.Name] {
+					return op + id.Name
+				}
+			}
+		}
+	case *ast.SelectorExpr:
+		return "sel:." + v.Sel.Name
+	}
+	return "other"
+}
+
+func c48AtomSet(e ast.Expr, op token.Token) string {
+	var as []string
+	for _, o := range c48Operands(e, op) {
+		as = append(as, c48Atom(o))
+	}
+	sort.Strings(as)
+	return strings.Join(as, ",")
+}
+
+func c48HasCall(n ast.Node, name string) bool {
 	found := false
-	ast.Inspect(fn.Body, func(n ast.Node) bool {
-		ifs, ok := n.(*ast.IfStmt)
-		if !ok || c48Str(fset, ifs.Cond) != cond {
-			return true
-		}
-		var blk ast.Node = ifs.Body
-		if inElse {
-			if ifs.Else == nil {
-				return true
-			}
-			blk = ifs.Else
-		}
-		txt := c48Str(fset, blk)
-		all := true
-		for _, nd := range needles {
-			if !strings.Contains(txt, nd) {
-				all = false
-			}
-		}
-		if all {
+	if n == nil {
+		return false
+	}
+	ast.Inspect(n, func(m ast.Node) bool {
+		if c, ok := m.(*ast.CallExpr); ok && c48CallName(c) == name {
 			found = true
 		}
-		return true
+		return !found
+	})
+	return found
+}
+
+func c48HasBranch(n ast.Node, tok token.Token, label string) bool {
+	found := false
+	ast.Inspect(n, func(m ast.Node) bool {
+		if b, ok := m.(*ast.BranchStmt); ok && b.Tok == tok && (label == "" || (b.Label != nil && b.Label.Name == label)) {
+			found = true
+		}
+		return !found
+	})
+	return found
+}
+
+func c48AnyIf(fn *ast.FuncDecl, pred func(*ast.IfStmt) bool) bool {
+	found := false
+	ast.Inspect(fn.Body, func(n ast.Node) bool {
+		if ifs, ok := n.(*ast.IfStmt); ok && pred(ifs) {
+			found = true
+		}
+		return !found
 	})
 	return found
 }
 
 func init() {
 	register("C48", func(repo string) (string, error) {
+		srv, err := c48LoadPkg(repo, "bfe_server")
+		if err != nil {
+			return "", err
+		}
+		mod, err := c48LoadPkg(repo, "bfe_module")
+		if err != nil {
+			return "", err
+		}
+		verdicts := c48IotaConsts(mod.files, "BfeHandlerFinish")
+		cps := c48IotaConsts(mod.files, "HandleAccept")
+		actions := c48IotaConsts(srv.files, "keepAlive")
+		if verdicts == nil || cps == nil || actions == nil {
+			return "", fmt.Errorf("verdict / callback point / action const blocks are no longer `X = iota` lists")
+		}
+
 		var points []c48Point
-		for _, rel := range []string{"bfe_server/http_conn.go", "bfe_server/reverseproxy.go"} {
-			fset, f, err := parseFile(repo, rel)
-			if err != nil {
+		for _, fd := range srv.order {
+			if err := srv.scan(fd.Name.Name, fd.Body.List, true, &points); err != nil {
 				return "", err
-			}
-			for _, d := range f.Decls {
-				fd, ok := d.(*ast.FuncDecl)
-				if !ok || fd.Body == nil {
-					continue
-				}
-				if err := c48Scan(fset, fd.Name.Name, fd.Body.List, &points); err != nil {
-					return "", err
-				}
 			}
 		}
 		if len(points) == 0 {
 			return "", fmt.Errorf("no callback points found")
 		}
-		// labels of ServeHTTP in order, interleaved with points: the order of callback points in ServeHTTP
-		var order []string
 		for _, p := range points {
-			if p.fn == "ServeHTTP" {
-				order = append(order, p.point)
+			if _, ok := cps["Handle"+p.point]; !ok {
+				return "", fmt.Errorf("callback point Handle%s is not in the const block", p.point)
 			}
-		}
-
-		// constants
-		_, hf, err := parseFile(repo, "bfe_module/bfe_handler_list.go")
-		if err != nil {
-			return "", err
-		}
-		verdicts := c48IotaConsts(hf, "BfeHandlerFinish")
-		_, cf, err := parseFile(repo, "bfe_module/bfe_callback.go")
-		if err != nil {
-			return "", err
-		}
-		cps := c48IotaConsts(cf, "HandleAccept")
-		_, hc, err := parseFile(repo, "bfe_server/http_conn.go")
-		if err != nil {
-			return "", err
-		}
-		actions := c48IotaConsts(hc, "keepAlive")
-		if verdicts == nil || cps == nil || actions == nil {
-			return "", fmt.Errorf("verdict / callback point / action const blocks are no longer `X = iota` lists")
-		}
-
-		// Filter loops
-		fsetH, hf2, err := parseFile(repo, "bfe_module/bfe_handler_list.go")
-		if err != nil {
-			return "", err
-		}
-		type lp struct{ name, iface, assign, call string }
-		loops := []lp{
-			{"FilterAccept", "AcceptFilter", "retVal", "filter.FilterAccept(session)"},
-			{"FilterRequest", "RequestFilter", "retVal, res", "filter.FilterRequest(req)"},
-			{"FilterForward", "ForwardFilter", "retVal", "filter.FilterForward(req)"},
-			{"FilterResponse", "ResponseFilter", "retVal", "filter.FilterResponse(req, res)"},
-			{"FilterFinish", "FinishFilter", "retVal", "filter.FilterFinish(session)"},
-		}
-		var loopFacts []string
-		for _, l := range loops {
-			fd := findFunc(hf2, "HandlerList", l.name)
-			if fd == nil || fd.Body == nil {
-				return "", fmt.Errorf("HandlerList.%s not found", l.name)
-			}
-			ok := false
-			// body: [var res ...;] retVal := BfeHandlerGoOn; LOOP: for ...; return retVal[, res]
-			var stmts []string
-			for _, st := range fd.Body.List {
-				stmts = append(stmts, c48Str(fsetH, st))
-			}
-			want := strings.NewReplacer("IFACE", l.iface, "ASSIGN", l.assign, "CALL", l.call).Replace(c48LoopTemplate)
-			want = strings.Join(strings.Fields(want), " ")
-			var exp []string
-			if l.name == "FilterRequest" {
-				exp = []string{"var res *bfe_http.Response", "retVal := BfeHandlerGoOn", "LOOP: " + want, "return retVal, res"}
-			} else {
-				exp = []string{"retVal := BfeHandlerGoOn", "LOOP: " + want, "return retVal"}
-			}
-			if len(stmts) == len(exp) {
-				ok = true
-				for i := range exp {
-					if stmts[i] != exp[i] {
-						ok = false
-					}
+			for _, a := range p.arms {
+				if _, ok := verdicts[a.verdict]; !ok {
+					return "", fmt.Errorf("verdict %s is not in the const block", a.verdict)
 				}
 			}
-			loopFacts = append(loopFacts, fmt.Sprintf("(%s, %v)", leanStr(l.name), ok))
+		}
+		sort.SliceStable(points, func(i, j int) bool { return cps["Handle"+points[i].point] < cps["Handle"+points[j].point] })
+		for k := range points {
+			arms := points[k].arms
+			sort.SliceStable(arms, func(i, j int) bool { return verdicts[arms[i].verdict] < verdicts[arms[j].verdict] })
 		}
 
 		var b strings.Builder
-		b.WriteString(header("C48", "bfe_server/reverseproxy.go", "bfe_server/http_conn.go", "bfe_module/bfe_handler_list.go", "bfe_module/bfe_callback.go"))
-		b.WriteString("/-- callback points found in bfe_server: (point, enclosing function, HandlerList method, verdict inspected?) -/\n")
-		b.WriteString("def points : List (String × String × String × Bool) := [\n")
+		b.WriteString(header("C48", "bfe_server/*.go", "bfe_module/bfe_handler_list.go", "bfe_module/bfe_callback.go"))
+		b.WriteString("/-- callback points found in bfe_server, by point value: (point, HandlerList method, verdict inspected?) -/\n")
+		b.WriteString("def points : List (String × String × Bool) := [\n")
 		for i, p := range points {
 			sep := ","
 			if i == len(points)-1 {
 				sep = ""
 			}
-			fmt.Fprintf(&b, "  (%s, %s, %s, %v)%s\n", leanStr(p.point), leanStr(p.fn), leanStr(p.method), p.looked, sep)
+			fmt.Fprintf(&b, "  (%s, %s, %v)%s\n", leanStr(p.point), leanStr(p.method), p.looked, sep)
 		}
-		b.WriteString("]\n\n/-- per point the arms of the verdict `switch` / `if`: (point, verdict names of the arm, statements as tokens) -/\n")
-		b.WriteString("def arms : List (String × List String × List String) := [\n")
-		var rows []string
+		b.WriteString("]\n\n/-- per point and verdict the arm of the verdict dispatch: (point, verdict, statements as tokens) -/\n")
+		b.WriteString("def arms : List (String × String × List String) := [\n")
+		var rows, trows []string
 		for _, p := range points {
-			for _, c := range p.cases {
-				rows = append(rows, fmt.Sprintf("  (%s, %s, %s)", leanStr(p.point), c48List(c[0]), c48List(c[1])))
-			}
-		}
-		b.WriteString(strings.Join(rows, ",\n") + "\n]\n\n")
-		// the same table in structured form (no strings: the theorems evaluate it in the kernel)
-		b.WriteString("/-- one statement of an arm -/\ninductive Tok where\n  | setAction (a : Nat) | ret | gotoSend | gotoGot | redirect | isRedirect | unknown\n  deriving DecidableEq, Repr\n\n")
-		b.WriteString("/-- `arms` with the iota values of bfe_module/bfe_callback.go, bfe_handler_list.go, http_conn.go: (point, verdicts of the arm, statements) -/\n")
-		b.WriteString("def armsT : List (Nat × List Nat × List Tok) := [\n")
-		var trows []string
-		for _, p := range points {
-			pv, ok := cps["Handle"+p.point]
-			if !ok {
-				return "", fmt.Errorf("callback point Handle%s is not in the const block", p.point)
-			}
-			for _, c := range p.cases {
-				var vs, ts []string
-				for _, n := range c[0] {
-					v, ok := verdicts[n]
-					if !ok {
-						return "", fmt.Errorf("verdict %s is not in the const block", n)
-					}
-					vs = append(vs, fmt.Sprint(v))
-				}
-				for _, t := range c[1] {
+			for _, a := range p.arms {
+				rows = append(rows, fmt.Sprintf("  (%s, %s, %s)", leanStr(p.point), leanStr(a.verdict), c48List(a.toks)))
+				var ts []string
+				for _, t := range a.toks {
 					switch {
 					case strings.HasPrefix(t, "action="):
-						a, ok := actions[strings.TrimPrefix(t, "action=")]
-						if !ok {
-							return "", fmt.Errorf("action %s is not in the const block", t)
-						}
-						ts = append(ts, fmt.Sprintf(".setAction %d", a))
+						ts = append(ts, fmt.Sprintf(".setAction %d", actions[strings.TrimPrefix(t, "action=")]))
 					case t == "return":
 						ts = append(ts, ".ret")
 					case t == "goto:send_response":
@@ -468,11 +819,14 @@ func init() {
 						ts = append(ts, ".unknown")
 					}
 				}
-				trows = append(trows, fmt.Sprintf("  (%d, [%s], [%s])", pv, strings.Join(vs, ", "), strings.Join(ts, ", ")))
+				trows = append(trows, fmt.Sprintf("  (%d, [%d], [%s])", cps["Handle"+p.point], verdicts[a.verdict], strings.Join(ts, ", ")))
 			}
 		}
-		b.WriteString(strings.Join(trows, ",\n") + "\n]\n\n")
-		b.WriteString("/-- `points` in structured form: (point, verdict inspected?) in source order -/\ndef pointsT : List (Nat × Bool) := [")
+		b.WriteString(strings.Join(rows, ",\n") + "\n]\n\n")
+		b.WriteString("/-- one statement of an arm -/\ninductive Tok where\n  | setAction (a : Nat) | ret | gotoSend | gotoGot | redirect | isRedirect | unknown\n  deriving DecidableEq, Repr\n\n")
+		b.WriteString("/-- `arms` with the iota values of bfe_module/bfe_callback.go, bfe_handler_list.go, http_conn.go: (point, verdicts of the arm, statements) -/\n")
+		b.WriteString("def armsT : List (Nat × List Nat × List Tok) := [\n" + strings.Join(trows, ",\n") + "\n]\n\n")
+		b.WriteString("/-- `points` in structured form: (point, verdict inspected?) by point value -/\ndef pointsT : List (Nat × Bool) := [")
 		for i, p := range points {
 			if i > 0 {
 				b.WriteString(", ")
@@ -480,7 +834,6 @@ func init() {
 			fmt.Fprintf(&b, "(%d, %v)", cps["Handle"+p.point], p.looked)
 		}
 		b.WriteString("]\n\n")
-		fmt.Fprintf(&b, "/-- order of the callback points inside ReverseProxy.ServeHTTP -/\ndef serveHTTPOrder : List String := %s\n\n", c48List(order))
 		cl := func(m map[string]int, prefix string) string {
 			xs := make([]string, len(m))
 			for k, v := range m {
@@ -493,55 +846,96 @@ func init() {
 		fmt.Fprintf(&b, "/-- `const ( BfeHandlerFinish = iota ... )` -/\ndef verdicts : List (String × Nat) := %s\n\n", cl(verdicts, ""))
 		fmt.Fprintf(&b, "/-- `const ( HandleAccept = iota ... )` -/\ndef callbackPoints : List (String × Nat) := %s\n\n", cl(cps, "Handle"))
 		fmt.Fprintf(&b, "/-- `const ( keepAlive = iota ... )` of http_conn.go -/\ndef actions : List (String × Nat) := %s\n\n", cl(actions, ""))
-		fmt.Fprintf(&b, "/-- HandlerList.FilterXxx still is `retVal := GoOn; for each element: right type -> call, stop unless GoOn; wrong type -> stop; return retVal` -/\ndef filterLoopAsModelled : List (String × Bool) := [%s]\n", strings.Join(loopFacts, ", "))
+
 		// ---- the control-flow skeleton the arms are embedded in
 		type evSpec struct {
-			file, recv, fn string
-			calls          []string
+			fn    string
+			calls []string
 		}
 		specs := []evSpec{
-			{"bfe_server/http_conn.go", "conn", "serve", []string{"finish", "close", "Handshake", "readRequest", "serveRequest"}},
-			{"bfe_server/http_conn.go", "conn", "serveRequest", []string{"ServeHTTP", "prepareForCloseConn", "finishRequest", "FinishReq"}},
-			{"bfe_server/http_conn.go", "conn", "finish", nil},
-			{"bfe_server/reverseproxy.go", "ReverseProxy", "ServeHTTP", []string{"findProduct", "findCluster", "clusterInvoke", "sendResponse"}},
-			{"bfe_server/reverseproxy.go", "ReverseProxy", "clusterInvoke", []string{"Balance", "RoundTrip"}},
-			{"bfe_server/reverseproxy.go", "ReverseProxy", "FinishReq", nil},
+			{"conn.serve", []string{"finish", "Handshake", "readRequest", "serveRequest"}},
+			{"conn.serveRequest", []string{"ServeHTTP", "prepareForCloseConn", "finishRequest", "FinishReq"}},
+			{"conn.finish", nil},
+			{"ReverseProxy.ServeHTTP", []string{"findProduct", "findCluster", "clusterInvoke", "sendResponse"}},
+			{"ReverseProxy.clusterInvoke", []string{"Balance", "RoundTrip"}},
+			{"ReverseProxy.FinishReq", nil},
 		}
 		var evRows []string
-		fdecl := map[string]*ast.FuncDecl{}
-		fsets := map[string]*token.FileSet{}
+		var order []string
 		for _, sp := range specs {
-			fs, f, err := parseFile(repo, sp.file)
-			if err != nil {
-				return "", err
+			fd := srv.qfuncs[sp.fn]
+			if fd == nil {
+				return "", fmt.Errorf("function %s not found in bfe_server", sp.fn)
 			}
-			fd := findFunc(f, sp.recv, sp.fn)
-			if fd == nil || fd.Body == nil {
-				return "", fmt.Errorf("(%s).%s not found", sp.recv, sp.fn)
-			}
-			fdecl[sp.fn], fsets[sp.fn] = fd, fs
 			cm := map[string]bool{}
 			for _, c := range sp.calls {
 				cm[c] = true
 			}
-			evRows = append(evRows, fmt.Sprintf("  (%s, %s)", leanStr(sp.fn), c48List(c48Events(fs, fd, cm))))
+			ev := srv.events(fd, cm, 0, map[string]bool{fd.Name.Name: true})
+			if sp.fn == "ReverseProxy.ServeHTTP" {
+				for _, e := range ev {
+					if strings.HasPrefix(e, "point:") {
+						order = append(order, strings.TrimPrefix(e, "point:"))
+					}
+				}
+			}
+			evRows = append(evRows, fmt.Sprintf("  (%s, %s)", leanStr(sp.fn), c48List(ev)))
 		}
-		b.WriteString("\n/-- per function, in source order: callback points, labels, and the calls the skeleton of the model relies on -/\n")
+		fmt.Fprintf(&b, "/-- order of the callback points inside ReverseProxy.ServeHTTP -/\ndef serveHTTPOrder : List String := %s\n\n", c48List(order))
+		b.WriteString("/-- per function, in source order: callback points, labels, and the calls the skeleton of the model relies on\n    (same-package helpers and function literals inlined) -/\n")
 		b.WriteString("def events : List (String × List String) := [\n" + strings.Join(evRows, ",\n") + "\n]\n\n")
-		sh, sr, sv := fdecl["ServeHTTP"], fdecl["serveRequest"], fdecl["serve"]
+
+		sh, sr, sv := srv.qfuncs["ReverseProxy.ServeHTTP"], srv.qfuncs["conn.serveRequest"], srv.qfuncs["conn.serve"]
+		keepAliveConj := false
+		ast.Inspect(sr.Body, func(n ast.Node) bool {
+			var rhs []ast.Expr
+			switch s := n.(type) {
+			case *ast.AssignStmt:
+				rhs = s.Rhs
+			case *ast.ReturnStmt:
+				rhs = s.Results
+			}
+			for _, e := range rhs {
+				if c48AtomSet(e, token.LAND) == "==keepAlive,==keepAlive" {
+					keepAliveConj = true
+				}
+			}
+			return true
+		})
+		threeFromCluster := false
+		ast.Inspect(sh.Body, func(n ast.Node) bool {
+			if as, ok := n.(*ast.AssignStmt); ok && len(as.Lhs) == 3 && len(as.Rhs) == 1 {
+				if c, ok := as.Rhs[0].(*ast.CallExpr); ok && c48CallName(c) == "clusterInvoke" {
+					threeFromCluster = true
+				}
+			}
+			return true
+		})
 		guards := []struct {
 			name string
 			ok   bool
 		}{
-			{"send_response writes res iff `!isRedirect && res != nil`", c48IfWith(fsets["ServeHTTP"], sh, "!isRedirect && res != nil", false, "p.sendResponse(rw, res,")},
-			{"after clusterInvoke: `err != nil || res == nil` -> internal error response, goto response_got", c48IfWith(fsets["ServeHTTP"], sh, "err != nil || res == nil", false, "res = bfe_basic.CreateInternalSrvErrResp(basicReq)", "goto response_got")},
-			{"serveRequest: `ret1 == closeDirectly` -> prepareForCloseConn", c48IfWith(fsets["serveRequest"], sr, "ret1 == closeDirectly", false, "res.prepareForCloseConn()")},
-			{"serveRequest: otherwise finishRequest", c48IfWith(fsets["serveRequest"], sr, "ret1 == closeDirectly", true, "res.finishRequest()")},
-			{"serveRequest: isKeepAlive = (ret1 == keepAlive) && (ret2 == keepAlive)", strings.Contains(c48Str(fsets["serveRequest"], sr.Body), "isKeepAlive = (ret1 == keepAlive) && (ret2 == keepAlive)")},
-			{"serve: `!isKeepAlive || w.closeAfterReply` -> break", c48IfWith(fsets["serve"], sv, "!isKeepAlive || w.closeAfterReply", false, "break")},
-			{"clusterInvoke returns (res, action, err) and ServeHTTP assigns `res, action, err = p.clusterInvoke(`", strings.Contains(c48Str(fsets["ServeHTTP"], sh.Body), "res, action, err = p.clusterInvoke(srv, cluster, basicReq, rw)")},
+			{"send_response writes res only under `!<redirect flag> && res != nil`", c48AnyIf(sh, func(i *ast.IfStmt) bool {
+				return c48AtomSet(i.Cond, token.LAND) == "nil!=,not" && c48HasCall(i.Body, "sendResponse")
+			})},
+			{"after clusterInvoke: `err != nil || res == nil` -> internal error response, goto response_got", c48AnyIf(sh, func(i *ast.IfStmt) bool {
+				return c48AtomSet(i.Cond, token.LOR) == "nil!=,nil==" && c48HasCall(i.Body, "CreateInternalSrvErrResp") && c48HasBranch(i.Body, token.GOTO, "response_got")
+			})},
+			{"serveRequest: closeDirectly -> prepareForCloseConn, otherwise finishRequest", c48AnyIf(sr, func(i *ast.IfStmt) bool {
+				a := c48Atom(i.Cond)
+				if i.Else == nil {
+					return false
+				}
+				return (a == "==closeDirectly" && c48HasCall(i.Body, "prepareForCloseConn") && c48HasCall(i.Else, "finishRequest")) ||
+					(a == "!=closeDirectly" && c48HasCall(i.Body, "finishRequest") && c48HasCall(i.Else, "prepareForCloseConn"))
+			})},
+			{"serveRequest: keep-alive iff both ServeHTTP's and FinishReq's action are keepAlive", keepAliveConj},
+			{"serve: `!isKeepAlive || w.closeAfterReply` -> break", c48AnyIf(sv, func(i *ast.IfStmt) bool {
+				return c48AtomSet(i.Cond, token.LOR) == "not,sel:.closeAfterReply" && c48HasBranch(i.Body, token.BREAK, "")
+			})},
+			{"ServeHTTP takes (res, action, err) from clusterInvoke", threeFromCluster},
 		}
-		b.WriteString("/-- guards of the skeleton, checked textually against the current source -/\ndef guards : List (String × Bool) := [\n")
+		b.WriteString("/-- guards of the skeleton, recognised structurally in the current source -/\ndef guards : List (String × Bool) := [\n")
 		for i, g := range guards {
 			sep := ","
 			if i == len(guards)-1 {
